@@ -337,6 +337,9 @@ impl<H: Clone> Clone for TracedHandle<H> {
     }
 }
 
+/// when set, `TracingSink::attach_declarative_shadow` reports success whatever the inner sink says (engine `tb`, `sh=1`)
+pub static SHADOW_ATTACH_OK: std::sync::atomic::AtomicBool = std::sync::atomic::AtomicBool::new(false);
+
 pub struct TracingSink<S: TreeSink> {
     pub inner: S,
     pub trace: RefCell<Vec<String>>,
@@ -859,8 +862,10 @@ impl<S: TreeSink> TreeSink for TracingSink<S> {
             format!("ads,{},{},{}", location.id, template.id, show_attr_vec(attrs)),
             w,
         );
-        self.inner
-            .attach_declarative_shadow(&location.inner, &template.inner, attrs)
+        let r = self
+            .inner
+            .attach_declarative_shadow(&location.inner, &template.inner, attrs);
+        r || SHADOW_ATTACH_OK.load(std::sync::atomic::Ordering::SeqCst)
     }
 
     fn maybe_clone_an_option_into_selectedcontent(&self, option: &Self::Handle) {
